@@ -215,6 +215,16 @@ def run(ctx):
         replay_case(ctx, base + i)
     for i in range(ctx.budget(150, 6000)):
         copy_case(ctx, base + i)
+    if not ctx.quick and ctx.shard == 0:
+        from vlib.repo_tests import run_under_monitors
+        res, tail = run_under_monitors()
+        if res is None:
+            ctx.count('repo_tests_under_monitors_unavailable')
+        else:
+            ctx.count('repo_tests_aliasing_monitor_evaluations', res['alias_evaluations'])
+            ctx.note('repo_tests_summary', tail)
+            for v in res['alias_violations']:
+                ctx.violation('get_data handed out a value sharing a mutable object with the stored one during a repository test', v)
     ctx.sample({'recording_case': 'read k, deep-mutate, read k again, fetch again', 'example_value': repr(Gen(random.Random(base)).mutable_value(3))[:300]})
     if not ctx.counters.get('reads_checked'):
         ctx.inconclusive('no read checked')
